@@ -165,3 +165,88 @@ Definition space_screen (tm : tmap3) (sm : list (Z * Z)) (names doses : list (li
   dor sids <- res_map_all (fun nm => match zlookup nm sm with Some i => Ok i | None => Err E_VALUE end) samples;
   dor tids <- res_map_all (fun nd => res_map_all (lookup3 tm) (combine (fst nd) (snd nd))) (combine names doses);
   Ok (sids, tids).
+
+(* ==== vocabulary of the source translations of correlation_matrix and, once more, of predict_viability_avg - here with NaN
+   as a VALUE (harness/src_functions.py C20_CORR, C20_PREDICT_AVG_NAN; Generated/SrcCorr.v; proofs Proofs/C20SourceCorr.v) ====
+   A float is [nq] = option Qc, None = NaN (the model above uses option for the NaN entries of the result); infinities are
+   not modelled (x / 0 with x <> 0 is Err E_UNMODELLED; the link proves it does not occur).  Every numpy operator below
+   is lifted: a NaN operand gives NaN.  A 2-d array is the list of its rows [list nvec]; a (1, m) array (keepdims over
+   axis 0) is the row [nvec], an (n, 1) array (keepdims over axis 1) the column [ncol] - two type NAMES for the translator.
+   The thetas are the function [f] of the Section above (theta index, sample id, treatment ids of one experiment); the
+   prediction vector of theta th on a screen (sample_ids, treatment_ids) is [theta_on f th screen] (row-wise: property C09). *)
+Definition nq : Type := option Qc.
+Definition nvec : Type := list nq.
+Definition ncol : Type := list nq.
+Definition nq_lift2 (op : Qc -> Qc -> Qc) (a b : nq) : nq :=
+  match a, b with Some x, Some y => Some (op x y) | _, _ => None end.
+Definition nq_add : nq -> nq -> nq := nq_lift2 Qcplus.
+Definition nq_sub : nq -> nq -> nq := nq_lift2 Qcminus.
+Definition nq_mul : nq -> nq -> nq := nq_lift2 Qcmult.
+(* x / y: 0 / 0 = NaN; x / 0 = +-inf for x <> 0, not modelled *)
+Definition nq_div (a b : nq) : result nq :=
+  match a, b with
+  | Some x, Some y => if qeqb y 0 then (if qeqb x 0 then Ok None else Err E_UNMODELLED) else Ok (Some (x / y))
+  | _, _ => Ok None
+  end.
+Definition nq_sum (l : list nq) : nq := fold_right nq_add (Some 0) l.
+(* the mean of a 1-d selection: NaN when there is no element *)
+Definition nq_mean (l : list nq) : nq :=
+  match l with [] => None | _ => nq_lift2 Qcdiv (nq_sum l) (Some (qlen l)) end.
+Definition is_nan (x : nq) : bool := match x with None => true | Some _ => false end.
+
+(* -- predict_viability_avg with NaN as a value: a theta is the vector it predicts on the screen at hand -- *)
+Definition theta_n : Type := nvec.
+(* np.zeros((n,), dtype=float) *)
+Definition nv_zeros (n : Z) : nvec := repeat (Some 0) (Z.to_nat n).
+(* np.isnan(x) *)
+Definition nv_isnan (x : nvec) : list bool := map is_nan x.
+(* a + b on 1-d arrays of one length (other lengths: broadcast of a single entry, else ValueError - refused) *)
+Definition nv_add (a b : nvec) : result nvec :=
+  if Nat.eqb (length a) (length b) then Ok (map (fun p => nq_add (fst p) (snd p)) (combine a b)) else Err E_VALUE.
+(* v / n, n an int: entrywise *)
+Definition nv_div_int (v : nvec) (n : Z) : result nvec := res_map_all (fun x => nq_div x (Some (qofZ n))) v.
+(* the prediction vectors of thetas 0 .. nthetas-1 on the screen (sample_ids, treatment_ids) *)
+Definition theta_on (f : nat -> Z -> list Z -> Qc) (th : nat) (screen : list Z * list (list Z)) : theta_n :=
+  map (fun st => Some (f th (fst st) (snd st))) (combine (fst screen) (snd screen)).
+Definition thetas_on (f : nat -> Z -> list Z -> Qc) (nthetas : nat) (screen : list Z * list (list Z)) : list theta_n :=
+  map (fun th => theta_on f th screen) (seq 0 nthetas).
+
+(* -- the numeric core of correlation_matrix, one numpy call each -- *)
+(* np.stack(l) of a list of 1-d arrays: ValueError when the list is empty or the lengths differ, else the rows *)
+Definition nm_stack (l : list nvec) : result (list nvec) :=
+  match l with
+  | [] => Err E_VALUE
+  | r :: t => if forallb (fun x => Nat.eqb (length x) (length r)) t then Ok l else Err E_VALUE
+  end.
+Definition ncolumn (P : list nvec) (k : nat) : list nq := map (fun row => nth k row None) P.
+(* np.mean(P, axis=0, keepdims=True) of an (n, m) matrix with n >= 1: the mean of every column, as a (1, m) row.  A matrix
+   without rows does not carry its shape[1] in this representation (np.stack never returns one): not modelled *)
+Definition nm_mean0 (P : list nvec) : result nvec :=
+  match P with
+  | [] => Err E_UNMODELLED
+  | r :: _ => Ok (map (fun k => nq_mean (ncolumn P k)) (seq 0 (length r)))
+  end.
+(* P - mu, mu a (1, m) row: subtracted from every row (rows of another length: broadcast of a single entry, else ValueError - refused) *)
+Definition nm_sub_row (P : list nvec) (mu : nvec) : result (list nvec) :=
+  if forallb (fun r => Nat.eqb (length r) (length mu)) P
+  then Ok (map (fun r => map (fun pm => nq_sub (fst pm) (snd pm)) (combine r mu)) P) else Err E_VALUE.
+(* np.square(X), elementwise *)
+Definition nm_square (X : list nvec) : list nvec := map (map (fun x => nq_mul x x)) X.
+(* np.sum(X, axis=1, keepdims=True): the sum of every row, as an (n, 1) column (0 for a row without entries) *)
+Definition nm_sum1 (X : list nvec) : ncol := map nq_sum X.
+(* np.sqrt on a column: NaN for a negative entry, the oracle elsewhere *)
+Definition nq_sqrt (orc : oracle) (x : nq) : nq :=
+  match x with Some v => if qltb v 0 then None else Some (orc ORC_SQRT v) | None => None end.
+Definition nc_sqrt (orc : oracle) (c : ncol) : ncol := map (nq_sqrt orc) c.
+(* X / c, c an (n, 1) column: every row divided by its entry of the column (another number of rows: refused) *)
+Definition nm_div_col (X : list nvec) (c : ncol) : result (list nvec) :=
+  if Nat.eqb (length X) (length c)
+  then res_map_all (fun rc => res_map_all (fun x => nq_div x (snd rc)) (fst rc)) (combine X c) else Err E_VALUE.
+(* np.einsum("ik, jk->ij", A, B): entry (i, j) = sum_k A[i][k] * B[j][k]; the two k dimensions must agree *)
+Definition nq_dot (a b : nvec) : nq := nq_sum (map (fun p => nq_mul (fst p) (snd p)) (combine a b)).
+Definition nm_einsum_ik_jk (A B : list nvec) : result (list nvec) :=
+  if forallb (fun a => forallb (fun b => Nat.eqb (length a) (length b)) B) A
+  then Ok (map (fun a => map (fun b => nq_dot a b) B) A) else Err E_VALUE.
+(* pandas.DataFrame(values, index=i, columns=c): the three as they are (sample name keys as labels) *)
+Definition corr_frame : Type := (list Z * list Z * list (list (option Qc)))%type.
+Definition mk_frame (values : list nvec) (index columns : list Z) : corr_frame := (index, columns, values).
